@@ -1,5 +1,5 @@
 """C01 — self-financing trading (family L, DESIGN §4 C01)."""
-from harness import l_ops, l_rebalance
+from harness import l_ops, l_rebalance, l_seq
 from harness.ledger import ASSUMPTIONS as _A
 
 PROPERTY = "C01"
@@ -8,11 +8,13 @@ PROPERTY = "C01"
 def harness(c, cfg):
     if cfg.get("op") == "rebalance":
         return l_rebalance.harness(c, cfg)
+    if cfg.get("op") == "seq":
+        return l_seq.harness(c, cfg)
     return l_ops.harness(c, cfg)
 
 
 def configs(tier):
-    out = l_ops.configs_for("C01", tier)
+    out = l_ops.configs_for("C01", tier) + l_seq.configs_for("C01", tier)
 
     def add(**kw):
         kw["prop"] = "C01"
@@ -38,7 +40,7 @@ ANCHORS = ["broker.py:Broker.transact", "broker.py:Broker.marking_to_market",
            "trade.py:Trade.__init__", "fees.py:BrokerFees.commissions",
            "exchange.py:LimitOrderBook.acq_price", "exchange.py:Exchange.process_EventNBBO",
            "broker.py:Broker.rebalance", "rebalancing.py:Rebalancing.make_trades"]
-EXPECT_REACH = ["trade", "quote", "mtm", "rebalance"]
+EXPECT_REACH = ["trade", "quote", "mtm", "rebalance", "sequence"]
 ASSUMPTIONS = _A
 BOUNDS = {
     "quick": "one traded contract (user-defined spot-like or margined spec with symbolic multiplier "
@@ -48,7 +50,8 @@ BOUNDS = {
     "thorough": "as quick plus a bystander contract of either kind in every shape (two non-cash "
                 "contracts + cash)",
 }
-OUTSIDE = ["IEEE rounding", "the 1e-7 snap band", "more than two non-cash contracts (independence by "
+OUTSIDE = ["IEEE rounding", "the 1e-7 snap band", "from-reset sequences longer than 3-4 operations (they cross-check the "
+           "inductive step and the INV shapes, they are not the induction)", "more than two non-cash contracts (independence by "
            "the per-contract loop structure, not machine-checked)",
            "the induction over the number of operations is an argument on paper; each step is checked"]
 STUBS = []
